@@ -2347,10 +2347,21 @@ class Connection_Manager( Object ):
                 raise
             # The target Object couldn't parse, or didn't recognize the request (eg. an unsupported
             # service).  Answer it alone with an error status, exactly as the same request is answered
-            # within a Multiple Service Packet (see Message_Router.request).
-            service		= bytearray( data.request.input[:1] )[0] & 0x7F
-            data.request	= dotdict( service=service | 0x80, status=0x08 ) # Service not supported
-            data.request.input	= bytearray( Object.produce( data.request ))
+            # within a Multiple Service Packet (see state_multiple_service and Message_Router.request):
+            # the target is given what is known of it (its service code), and if it cannot produce a
+            # reply for that either, the reply is Service not supported.
+            req			= dotdict( input=data.request.input )
+            req.service		= bytearray( req.input[:1] )[0] & 0x7F
+            try:
+                target.request( req, addr=addr )
+            except Exception as exc:
+                req.pop( Message_Router.SV_COD_CTX, None )
+                req.pop( 'status_ext', None )
+                req.service	= req.get( 'service', 0 ) | 0x80
+                if not req.get( 'status' ):
+                    req.status	= 0x08		# Service not supported
+                req.input	= bytearray( Object.produce( req ))
+            data.request	= req
 
         if log.isEnabledFor( logging.INFO ):
             log.info( "%s Response: %s", self, enip_format( data ))
